@@ -7,6 +7,7 @@ From Coq Require Import List ZArith Bool Lia.
 Import ListNotations.
 From TI Require Import model.Iter model.IterSpec proofs.IterProofs proofs.IterProofs2
      proofs.IterCacheProofs proofs.IterExamples.
+From TI Require Import model.IterWrap proofs.IterWrapProofs.
 From TI Require model.ImgIter model.ImgIterSpec proofs.ImgIterProofs.
 Open Scope Z_scope.
 
@@ -76,3 +77,44 @@ Theorem C09_imgiter_cache_transparent :
     TI.model.ImgIter.trace fmt_frame hash N false (TI.model.ImgIter.init Str repeat pos0 z0) ops.
 Proof. exact TI.proofs.ImgIterProofs.imgiter_cache_transparent. Qed.
 Print Assumptions C09_imgiter_cache_transparent.
+
+(** *** [wrap] invariance (round 4).  [RenderIterator] wraps every yielded frame — rendered
+    just now or taken from the cache — with a STORED padded size.  After every history, for
+    every renderable (deterministic or not, failing or not), every frame count and every
+    [cache] argument, that stored size is [get_padded_size] of the CURRENT padding at the
+    CURRENT render size: it does not depend on which frames were rendered or served from
+    the cache, nor on the settings under which the last frame was rendered *)
+Theorem C09_padded_is_current :
+  forall RS render n term c rs0 (s : state RS) ops,
+    mk RS n term c rs0 = inl s ->
+    padded (run RS render n term s ops)
+    = padded_size (pad (run RS render n term s ops)) (d_size (rd (run RS render n term s ops))).
+Proof. exact padded_is_current. Qed.
+Print Assumptions C09_padded_is_current.
+
+(** on an iterator that is not finalized the four settings, and with them the padded size,
+    are a function of the history's setter operations alone ([settings_of]: the latest
+    accepted value of each) — in particular equal again after a round trip A -> B -> A,
+    whatever was rendered under B *)
+Theorem C09_settings_by_history :
+  forall RS render n term c rs0 (s : state RS) ops,
+    mk RS n term c rs0 = inl s -> closed (run RS render n term s ops) = false ->
+    let h := settings_of term (settings0 term c) ops in
+    stored RS (run RS render n term s ops) = h /\
+    padded (run RS render n term s ops) = padded_size (h_pad h) (h_size h).
+Proof. exact settings_by_history. Qed.
+Print Assumptions C09_settings_by_history.
+
+(** every frame yielded anywhere in any history — cache hit or fresh render — has the
+    padded size and the padding dimensions of the padding and the render size that the
+    history had established when it was asked for ([wrap_okb], the history-level oracle the
+    correspondence applies to the cached AND the uncached run), for every renderable that
+    returns frames of the requested size (the contract of [_render_]) *)
+Theorem C09_wrap_current :
+  forall RS render n term,
+    render_honours_size RS render ->
+    forall c rs0 (s : state RS) ops,
+    mk RS n term c rs0 = inl s ->
+    wrap_okb term (settings0 term c) ops (trace RS render n term s ops) = true.
+Proof. exact wrap_current. Qed.
+Print Assumptions C09_wrap_current.
